@@ -626,6 +626,19 @@ void post_checks(Db& db, const program& p, exec_state& x) {
       if (counts[c] != t.counts[c])
         return violate("C10", std::string("olc-concurrent/node-count/") + cn[c], "after a concurrent phase the reported node count differs from the radix tree of the final key set",
                        json::object().set("class", cn[c]).set("reported", counts[c]).set("expected", t.counts[c]));
+    // conservation identities that hold for any history iff growth/shrink counters move exactly with
+    // structural events: a node of class X appears by grow[X] or shrink[larger], disappears by shrink[X] or grow[larger]
+    const auto g = db.get_growing_inode_counts();
+    const auto sh = db.get_shrinking_inode_counts();
+    for (std::size_t c = 0; c < 4; ++c) {
+      const long long expect = static_cast<long long>(g[c]) - static_cast<long long>(sh[c]) - (c < 3 ? static_cast<long long>(g[c + 1]) - static_cast<long long>(sh[c + 1]) : 0);
+      if (expect != static_cast<long long>(counts[c + 1]))
+        return violate("C10", std::string("olc-concurrent/growth-shrink-conservation/") + cn[c + 1],
+                       "after a concurrent phase the growth/shrink counters do not account for the inner nodes that exist (a counter moved without a structural event, or did not move with one)",
+                       json::object().set("class", cn[c + 1]).set("nodes", counts[c + 1]).set("implied_by_counters", expect)
+                           .set("growing", json::array().push(g[0]).push(g[1]).push(g[2]).push(g[3])).set("shrinking", json::array().push(sh[0]).push(sh[1]).push(sh[2]).push(sh[3])));
+    }
+    rep().count("growth_shrink_conservation_checks");
     const auto tracked = vm::alloc_tracker::get().bytes_live();
     if (tracked != db.get_current_memory_use())
       return violate("C10", "olc-concurrent/memory-use", "after a concurrent phase and drain, allocator bytes differ from reported memory use",
